@@ -132,16 +132,19 @@ impl XmlReader {
     }
 
     fn read_xml_internal(file: &FileContent, file_name: &str, files: &Files) -> WriterResult<RustDocument> {
-        Self::read_xml_with_known_namespaces(file, file_name, files, &[])
+        Self::read_xml_with_known_namespaces(file, file_name, files, &[], &[])
     }
 
     /// `known_namespaces`: the namespaces of the importing document, so that one namespace gets one
-    /// abbreviation and module in the whole output and two namespaces never share one
+    /// abbreviation and module in the whole output and two namespaces never share one.
+    /// `known_nodes`: the components the importing documents have read so far, so that a file can
+    /// refer to a file that was already read on behalf of another importer
     fn read_xml_with_known_namespaces(
         file: &FileContent,
         file_name: &str,
         files: &Files,
         known_namespaces: &[Rc<Namespace>],
+        known_nodes: &[Rc<RustNode>],
     ) -> WriterResult<RustDocument> {
         if file.processed.load(std::sync::atomic::Ordering::SeqCst) {
             let rust_doc = RustDocument::empty();
@@ -151,7 +154,7 @@ impl XmlReader {
         let xml = &file.xml;
         let doc = roxmltree::Document::parse(xml)
             .map_err(|e| WriterError::new(format!("Unable to parse file {file_name}: {e}")))?;
-        let mut rust_doc = RustDocument::init_with_known_namespaces(&doc, known_namespaces);
+        let mut rust_doc = RustDocument::init_with_known_namespaces(&doc, known_namespaces, known_nodes);
 
         // mark the file before following its imports, so that import cycles terminate
         file.processed.store(true, std::sync::atomic::Ordering::SeqCst);
@@ -233,7 +236,8 @@ impl XmlReader {
     fn read_xsd<'n>(node: Node<'n, 'n>, files: &Files, doc: &mut RustDocument) -> WriterResult<()> {
         for child in node.children() {
             if child.tag_name().name() == "import" {
-                let imported = Self::process_import(child, files, &doc.namespaces)?;
+                let known_nodes: Vec<Rc<RustNode>> = doc.known_nodes.iter().chain(&doc.nodes).cloned().collect();
+                let imported = Self::process_import(child, files, &doc.namespaces, &known_nodes)?;
                 doc.extend(imported);
                 continue;
             }
@@ -246,7 +250,12 @@ impl XmlReader {
         Ok(())
     }
 
-    fn process_import(node: Node, files: &Files, known_namespaces: &[Rc<Namespace>]) -> WriterResult<RustDocument> {
+    fn process_import(
+        node: Node,
+        files: &Files,
+        known_namespaces: &[Rc<Namespace>],
+        known_nodes: &[Rc<RustNode>],
+    ) -> WriterResult<RustDocument> {
         let namespace = node.attribute("namespace").ok_or(WriterError::NamespaceMissing)?;
 
         if WELL_KNOWN_NAMESPACES.contains(&namespace) {
@@ -266,7 +275,8 @@ impl XmlReader {
             return Ok(RustDocument::empty());
         }
 
-        let rust_doc = Self::read_xml_with_known_namespaces(file, schema_location, files, known_namespaces)?;
+        let rust_doc =
+            Self::read_xml_with_known_namespaces(file, schema_location, files, known_namespaces, known_nodes)?;
         Ok(rust_doc)
     }
 }
